@@ -2,7 +2,15 @@
 package mc
 
 import (
+	"encoding/json"
 	"fmt"
+	"os"
+	"os/exec"
+	"path/filepath"
+	"runtime"
+	"strconv"
+	"sync"
+	"testing"
 
 	"verifh/evid"
 	"verifh/vsync"
@@ -50,7 +58,7 @@ func (a *Agg) Add(res *vsync.Result, keyFn func(v *vsync.Violation) string) {
 	a.Scenarios = append(a.Scenarios, map[string]any{
 		"name": res.Name, "executions": res.Executions, "states": res.States, "transitions": res.Transitions,
 		"preemption_bound_completed": res.BoundCompleted, "exhaustive": res.Exhaustive, "distinct_outcomes": res.DistinctOutcomes,
-		"deadlocks": res.Deadlocks, "horizon_hits": res.HorizonHits, "violations": len(res.Violations), "cap": res.Cap,
+		"deadlocks": res.Deadlocks, "horizon_hits": res.HorizonHits, "violations": res.NViolations, "cap": res.Cap, "pruned_at_visited_state": res.Pruned,
 		"max_simultaneously_enabled": res.MaxEnabled,
 	})
 	if len(a.Samples) < 4 && len(res.Samples) > 0 {
@@ -91,4 +99,89 @@ func (a *Agg) Finish(wantConcurrency bool) {
 	c["horizon_hits"] = a.Horizon
 	c["max_depth"] = a.MaxDepth
 	c["exhaustive"] = a.Exhaustive
+}
+
+// RunScenarios explores n scenarios. With VERIF_PAR != "1" the scenarios are
+// spread over worker subprocesses (re-executions of the test binary), because a
+// process hosts one scheduler at a time; results are merged into agg.
+func RunScenarios(t *testing.T, agg *Agg, n int, mk func(i int) *vsync.Config, keyFn func(v *vsync.Violation) string) {
+	if sh := os.Getenv("VERIF_SHARD_OUT"); sh != "" {
+		// worker: run the scenarios assigned to this shard, dump results, exit
+		var idx []int
+		json.Unmarshal([]byte(os.Getenv("VERIF_SHARD_IDX")), &idx)
+		var out []*vsync.Result
+		for _, i := range idx {
+			out = append(out, vsync.Explore(t, mk(i)))
+		}
+		b, _ := json.Marshal(out)
+		if err := os.WriteFile(sh, b, 0o644); err != nil {
+			evid.Fatal("shard write: %v", err)
+		}
+		os.Exit(0)
+	}
+	workers := runtime.NumCPU()
+	if w := os.Getenv("VERIF_WORKERS"); w != "" {
+		workers, _ = strconv.Atoi(w)
+	}
+	if workers > n {
+		workers = n
+	}
+	if workers <= 1 {
+		for i := 0; i < n; i++ {
+			agg.Add(vsync.Explore(t, mk(i)), keyFn)
+		}
+		return
+	}
+	dir, err := os.MkdirTemp(filepath.Join(evid.Root, ".work"), "shard-")
+	if err != nil {
+		evid.Fatal("shard dir: %v", err)
+	}
+	defer os.RemoveAll(dir)
+	// dynamic assignment: one scenario per subprocess invocation, `workers` at a time
+	results := make([]*vsync.Result, n)
+	var wg sync.WaitGroup
+	next := make(chan int, n)
+	for i := 0; i < n; i++ {
+		next <- i
+	}
+	close(next)
+	var mu sync.Mutex
+	var firstErr string
+	for w := 0; w < workers; w++ {
+		wg.Add(1)
+		go func(w int) {
+			defer wg.Done()
+			for i := range next {
+				outf := filepath.Join(dir, fmt.Sprintf("r%d.json", i))
+				cmd := exec.Command(os.Args[0], "-test.run", "^"+t.Name()+"$", "-test.count", "1", "-test.timeout", "60m")
+				cmd.Env = append(os.Environ(), "VERIF_SHARD_OUT="+outf, fmt.Sprintf("VERIF_SHARD_IDX=[%d]", i), "GOMAXPROCS=1")
+				ob, err := cmd.CombinedOutput()
+				b, rerr := os.ReadFile(outf)
+				var rs []*vsync.Result
+				if err != nil || rerr != nil || json.Unmarshal(b, &rs) != nil || len(rs) != 1 {
+					mu.Lock()
+					if firstErr == "" {
+						firstErr = fmt.Sprintf("scenario %d worker failed: %v %v\n%s", i, err, rerr, tail(string(ob), 2000))
+					}
+					mu.Unlock()
+					continue
+				}
+				results[i] = rs[0]
+			}
+		}(w)
+	}
+	wg.Wait()
+	if firstErr != "" {
+		evid.Fatal("%s", firstErr)
+	}
+	for _, r := range results {
+		agg.Add(r, keyFn)
+	}
+}
+
+func tail(s string, n int) string {
+	if len(s) > n {
+		return s[len(s)-n:]
+	}
+	return s
 }
